@@ -386,3 +386,140 @@ func IsCallNamed(v ssa.Value, names ...string) (*ssa.Call, bool) {
 	}
 	return nil, false
 }
+
+// SameExpr: structural equality of two SSA values for pure expressions (SSA has no CSE:
+// `claim.GetEventNonce()` evaluated twice yields two Call values).
+func SameExpr(a, b ssa.Value, depth int) bool {
+	if a == b {
+		return true
+	}
+	if a == nil || b == nil || depth <= 0 {
+		return false
+	}
+	switch x := a.(type) {
+	case *ssa.Const:
+		y, ok := b.(*ssa.Const)
+		if !ok {
+			return false
+		}
+		if x.Value == nil || y.Value == nil {
+			return x.Value == nil && y.Value == nil && types.Identical(x.Type(), y.Type())
+		}
+		return x.Value.ExactString() == y.Value.ExactString()
+	case *ssa.Call:
+		y, ok := b.(*ssa.Call)
+		if !ok {
+			return false
+		}
+		cx, cy := x.Common(), y.Common()
+		if cx.IsInvoke() != cy.IsInvoke() {
+			return false
+		}
+		if cx.IsInvoke() {
+			if cx.Method != cy.Method || !SameExpr(cx.Value, cy.Value, depth-1) {
+				return false
+			}
+		} else {
+			fx, fy := cx.StaticCallee(), cy.StaticCallee()
+			if fx == nil || fx != fy {
+				bx, ok1 := cx.Value.(*ssa.Builtin)
+				by, ok2 := cy.Value.(*ssa.Builtin)
+				if !(ok1 && ok2 && bx.Name() == by.Name()) {
+					return false
+				}
+			}
+		}
+		if len(cx.Args) != len(cy.Args) {
+			return false
+		}
+		for i := range cx.Args {
+			if isCtxType(cx.Args[i].Type()) {
+				continue
+			}
+			if !SameExpr(cx.Args[i], cy.Args[i], depth-1) {
+				return false
+			}
+		}
+		return true
+	case *ssa.BinOp:
+		y, ok := b.(*ssa.BinOp)
+		return ok && x.Op == y.Op && SameExpr(x.X, y.X, depth-1) && SameExpr(x.Y, y.Y, depth-1)
+	case *ssa.UnOp:
+		y, ok := b.(*ssa.UnOp)
+		return ok && x.Op == y.Op && SameExpr(x.X, y.X, depth-1)
+	case *ssa.FieldAddr:
+		y, ok := b.(*ssa.FieldAddr)
+		return ok && x.Field == y.Field && SameExpr(x.X, y.X, depth-1)
+	case *ssa.Field:
+		y, ok := b.(*ssa.Field)
+		return ok && x.Field == y.Field && SameExpr(x.X, y.X, depth-1)
+	case *ssa.Convert:
+		y, ok := b.(*ssa.Convert)
+		return ok && types.Identical(x.Type(), y.Type()) && SameExpr(x.X, y.X, depth-1)
+	case *ssa.ChangeType:
+		y, ok := b.(*ssa.ChangeType)
+		return ok && SameExpr(x.X, y.X, depth-1)
+	case *ssa.ChangeInterface:
+		y, ok := b.(*ssa.ChangeInterface)
+		return ok && SameExpr(x.X, y.X, depth-1)
+	case *ssa.MakeInterface:
+		y, ok := b.(*ssa.MakeInterface)
+		return ok && SameExpr(x.X, y.X, depth-1)
+	case *ssa.Extract:
+		y, ok := b.(*ssa.Extract)
+		return ok && x.Index == y.Index && SameExpr(x.Tuple, y.Tuple, depth-1)
+	case *ssa.Slice:
+		y, ok := b.(*ssa.Slice)
+		return ok && SameExpr(x.X, y.X, depth-1) && SameExpr(x.Low, y.Low, depth-1) && SameExpr(x.High, y.High, depth-1)
+	case *ssa.IndexAddr:
+		y, ok := b.(*ssa.IndexAddr)
+		return ok && SameExpr(x.X, y.X, depth-1) && SameExpr(x.Index, y.Index, depth-1)
+	}
+	return false
+}
+
+// stripConv removes conversions / interface changes.
+func stripConv(v ssa.Value) ssa.Value {
+	for {
+		switch x := v.(type) {
+		case *ssa.Convert:
+			v = x.X
+		case *ssa.ChangeType:
+			v = x.X
+		case *ssa.ChangeInterface:
+			v = x.X
+		case *ssa.MakeInterface:
+			v = x.X
+		default:
+			return v
+		}
+	}
+}
+
+// plusConst: v == base + c  (c constant int); returns base, c.
+func plusConst(v ssa.Value) (ssa.Value, int64, bool) {
+	b, ok := stripConv(v).(*ssa.BinOp)
+	if !ok || b.Op != token.ADD {
+		return nil, 0, false
+	}
+	if c, ok := constInt(b.Y); ok {
+		return b.X, c, true
+	}
+	if c, ok := constInt(b.X); ok {
+		return b.Y, c, true
+	}
+	return nil, 0, false
+}
+
+// invokeOn: v is `recv.<method>()` (interface invoke or static method call); returns recv.
+func methodCallOn(v ssa.Value, method string) (ssa.Value, bool) {
+	c, ok := stripConv(v).(*ssa.Call)
+	if !ok || callName(c) != method {
+		return nil, false
+	}
+	a := callArgs(c)
+	if len(a) == 0 {
+		return nil, false
+	}
+	return a[0], true
+}
